@@ -11,7 +11,9 @@ package c01
 import (
 	"bytes"
 	"encoding/binary"
+	"errors"
 	"fmt"
+	"io"
 	"net"
 	"sort"
 	"strings"
@@ -40,6 +42,7 @@ type routerSpec struct {
 type sockSpec struct {
 	IPIdx   int  `json:"ipIdx"`   // which host IP; -1 = wildcard
 	Connect int  `json:"connect"` // >=0: Dial-connected to socket #Connect (must be upward)
+	RBuf    int  `json:"rbuf,omitempty"` // the reader's slice length (0: 2000): longer datagrams come back cut together with a short-buffer error
 }
 
 type hostSpec struct {
@@ -135,7 +138,7 @@ func gen(r *harn.Rng, tier string) interface{} {
 				h.NIPs = 1
 			}
 			for s, ns := 0, r.Range(1, 2); s < ns; s++ {
-				ss := sockSpec{IPIdx: 0, Connect: -1}
+				ss := sockSpec{IPIdx: 0, Connect: -1, RBuf: r.Pick(0, 0, 0, 0, 16, 64, 200)}
 				if h.NIPs == 2 && r.Bool(0.4) {
 					ss.IPIdx = 1
 				}
@@ -321,6 +324,8 @@ type rcv struct {
 	payload []byte
 	src     string
 	stamp   uint64
+	short   bool // the read reported io.ErrShortBuffer
+	rbuf    int  // length of the slice read into
 }
 
 type sentT struct {
@@ -679,13 +684,31 @@ func run(env *simrt.Env, sci interface{}) {
 	}
 	startReader := func(s *sockT) {
 		s.h = env.Go(fmt.Sprintf("reader%d", s.gi), func() {
-			buf := make([]byte, 2000)
+			size := 2000
+			if s.spec.RBuf > 0 {
+				size = s.spec.RBuf
+			}
+			buf := make([]byte, size)
 			for {
-				n, from, err := s.pc.ReadFrom(buf)
-				if err != nil {
+				var n int
+				var from net.Addr
+				var err error
+				if nc, ok := s.pc.(net.Conn); ok && s.remote != "" {
+					// connected sockets are read with Read; the source is the peer by construction
+					n, err = nc.Read(buf)
+					from = nc.RemoteAddr()
+				} else {
+					n, from, err = s.pc.ReadFrom(buf)
+				}
+				short := errors.Is(err, io.ErrShortBuffer)
+				if err != nil && !short {
 					return
 				}
-				s.inbox = append(s.inbox, rcv{payload: append([]byte(nil), buf[:n]...), src: from.String(), stamp: env.Stamp()})
+				src := "?"
+				if from != nil {
+					src = from.String()
+				}
+				s.inbox = append(s.inbox, rcv{payload: append([]byte(nil), buf[:n]...), src: src, stamp: env.Stamp(), short: short, rbuf: size})
 			}
 		})
 	}
@@ -736,7 +759,8 @@ func run(env *simrt.Env, sci interface{}) {
 		case "unroutable":
 			dst = &net.UDPAddr{IP: net.ParseIP("172.31.9.9"), Port: 4000}
 		case "loopback":
-			dst = &net.UDPAddr{IP: net.ParseIP("127.0.0.1"), Port: 4000 + sp.To%2}
+			// any address of 127.0.0.0/8 stays on the host
+			dst = &net.UDPAddr{IP: net.ParseIP([]string{"127.0.0.1", "127.0.0.1", "127.0.0.2", "127.1.2.3"}[(sp.To/2)%4]), Port: 4000 + sp.To%2}
 		case "sibling":
 			// an address in this router's own subnet that nobody holds
 			base := strings.TrimSuffix(w.routerOf(from).cidr.IP.String(), ".0")
@@ -1117,7 +1141,13 @@ func (w *world) check(final, hadStop bool) bool {
 				env.Fail("C01/invented-datagram", "socket #%d received a datagram with unknown tag %d", s.gi, t)
 				return false
 			}
-			if !bytes.Equal(st.payload, it.payload) {
+			if it.short != (len(st.payload) > it.rbuf) {
+				env.Fail("C01/short-buffer-error-wrong", "datagram %d (%d bytes, %s -> %s) was read by socket #%d into a %d-byte slice; short-buffer error reported: %v", t, len(st.payload), st.from.desc(), st.dst, s.gi, it.rbuf, it.short)
+				return false
+			}
+			if it.short && bytes.Equal(st.payload[:it.rbuf], it.payload) {
+				// the leading bytes of a datagram longer than the reader's slice
+			} else if !bytes.Equal(st.payload, it.payload) {
 				env.Fail("C01/payload-changed", "datagram %d (%d bytes, %s -> %s) arrived at socket #%d with different bytes (%d bytes)", t, len(st.payload), st.from.desc(), st.dst, s.gi, len(it.payload))
 				return false
 			}
